@@ -33,7 +33,8 @@ def plan(tier):
             "required_classes": ["A:order", "A:exact", "B:solver-independence", "C:adaptive", "D:splitting",
                                  "E:conservation", "F:bond-limit", "TD:time-dependent", "TD:adaptive", "mpdm", "history", "shared-config",
                                  "family:pc", "family:ps", "family:ps2", "family:vmf", "family:cmf",
-                                 "gauge:non-canonical-complex", "gauge:non-canonical-real"],
+                                 "gauge:non-canonical-complex", "gauge:non-canonical-real", "H:homogeneity", "H:ps2|product-state",
+                                 "H:pc|product-state", "H:ps|full-rank-state"],
             "required_counters": {"oracle": 800, "ratios_measured": 100}}
     if tier == "quick":
         base.update({"ncases": 160, "min_nontrivial": 150})
@@ -441,6 +442,39 @@ def oracle_history(ctx, em, mps, psi):
             break
 
 
+def oracle_H(ctx, em, full, low):
+    """Without normalisation a step is homogeneous of degree one in the input amplitudes: evolve(mu*psi) = mu*evolve(psi),
+    the factor sitting in the TENSORS (Mps.scale).  Environments and effective Hamiltonians are built from the state
+    itself, so anything that is only right for normalised tensors shows up here - also where the step is exact.
+    (Not asked of the matrix-unfolding schemes: their regularisation of the inverse is an absolute epsilon.)"""
+    rng = ctx.rng
+    ctx.cls("H:homogeneity")
+    cands = [s for s in evolve.scheme_list() if s.family in ("pc", "ps", "ps2")]
+    sc = cands[int(rng.integers(0, len(cands)))]
+    product = bool(rng.random() < 0.5) and sc.family != "ps"
+    s0 = low if product else full
+    if sc.family == "ps2":
+        # (which null-space vectors complete the bond bases of the two-site update is not a continuous function of the
+        # two-site tensor - see the tree check: positive powers of two rescale every intermediate exactly)
+        mu = [4.0, 0.25, 2.0, 0.5][int(rng.integers(0, 4))]
+    else:
+        mu = [4.0, 0.25, -3.0, complex(2 * np.exp(0.7j))][int(rng.integers(0, 4))]
+    h = float(rng.uniform(0.1, 0.3)) / em.hnorm
+    ctx.cls(f"H:{sc.family}|{'product-state' if product else 'full-rank-state'}")
+    state = rng.bit_generator.state
+    out1 = evolve.run_step(ctx, sc, s0, em.mpo, h, what=f"evolve|{sc.name}|psi")
+    after = rng.bit_generator.state
+    rng.bit_generator.state = state             # same seed for the library's global RNG in the scaled run
+    outm = evolve.run_step(ctx, sc, s0.scale(mu), em.mpo, h, what=f"evolve|{sc.name}|mu*psi")
+    rng.bit_generator.state = after
+    a, b = states.dense_of(out1), states.dense_of(outm)
+    ctx.count("oracle")
+    ctx.count("homogeneity_checks")
+    ctx.close(b, mu * a, 1e-6, f"H|{sc.family}|evolved-state-not-proportional-to-the-input-amplitude|" +
+              ("product-state" if product else "full-rank-state"), scale=max(float(np.linalg.norm(mu * a)), 1e-300), mu=mu,
+              scheme=sc.name, bonds=list(s0.bond_dims))
+
+
 def oracle_shared_config(ctx, em, mps, psi):
     """Hostile class: two states share one EvolveConfig object; evolving one must not degrade the other's scheme."""
     from renormalizer.utils import EvolveConfig, EvolveMethod
@@ -534,6 +568,8 @@ def run_case(ctx):
     else:
         oracle_shared_config(ctx, em, full, psi)
         oracle_B(ctx, "cmf", em, full, psi)
+    if ctx.idx % 2 == 0 and not ctx.violations:
+        oracle_H(ctx, em, full, low)
     try:
         from rv import kernel_contracts
         obs = kernel_contracts.drain_observations()
